@@ -203,28 +203,28 @@ var (
 	c33ReaderRuntime = func() []byte {
 		a := ep.NewAsm(true)
 		top, end := a.NewLabel(), a.NewLabel()
-		a.PushU(0)                            // acc
-		a.PushU(0x20).Op(ep.CALLDATALOAD)     // k
-		a.PushU(0x40).Op(ep.CALLDATALOAD)     // n          [acc k n]
-		a.Bind(top)                           //
-		a.Op(ep.DUP1, ep.ISZERO).Jumpi(end)   // n == 0: done
-		a.Op(ep.DUP1+1, ep.NUMBER, ep.SUB)    // NUMBER-k   [acc k n num-k]
-		a.Op(ep.BLOCKHASH)                    //            [acc k n h]
-		a.Op(ep.SWAP1 + 2)                    //            [h k n acc]
-		a.PushU(3).Op(ep.MUL)                 //            [h k n 3acc]
-		a.Op(ep.DUP1+3, ep.ADD)               //            [h k n acc']
-		a.Op(ep.SWAP1+2, ep.POP)              //            [acc' k n]
-		a.Op(ep.SWAP1)                        //            [acc' n k]
-		a.PushU(0x60).Op(ep.CALLDATALOAD)     // step
-		a.Op(ep.ADD, ep.SWAP1)                //            [acc' k' n]
-		a.PushU(1).Op(ep.SWAP1, ep.SUB)       //            [acc' k' n-1]
-		a.Jump(top)                           //
-		a.SetDepth(3).Bind(end)               //            [acc k n]
-		a.Op(ep.POP, ep.POP)                  //            [acc]
-		a.Op(ep.DUP1)                         //            [acc acc]
-		a.PushU(0).Op(ep.CALLDATALOAD)        //            [acc acc slot]
-		a.Op(ep.SSTORE)                       //            [acc]
-		a.PushU(0).Op(ep.MSTORE)              // mem[0:32] = acc
+		a.PushU(0)                          // acc
+		a.PushU(0x20).Op(ep.CALLDATALOAD)   // k
+		a.PushU(0x40).Op(ep.CALLDATALOAD)   // n          [acc k n]
+		a.Bind(top)                         //
+		a.Op(ep.DUP1, ep.ISZERO).Jumpi(end) // n == 0: done
+		a.Op(ep.DUP1+1, ep.NUMBER, ep.SUB)  // NUMBER-k   [acc k n num-k]
+		a.Op(ep.BLOCKHASH)                  //            [acc k n h]
+		a.Op(ep.SWAP1 + 2)                  //            [h k n acc]
+		a.PushU(3).Op(ep.MUL)               //            [h k n 3acc]
+		a.Op(ep.DUP1+3, ep.ADD)             //            [h k n acc']
+		a.Op(ep.SWAP1+2, ep.POP)            //            [acc' k n]
+		a.Op(ep.SWAP1)                      //            [acc' n k]
+		a.PushU(0x60).Op(ep.CALLDATALOAD)   // step
+		a.Op(ep.ADD, ep.SWAP1)              //            [acc' k' n]
+		a.PushU(1).Op(ep.SWAP1, ep.SUB)     //            [acc' k' n-1]
+		a.Jump(top)                         //
+		a.SetDepth(3).Bind(end)             //            [acc k n]
+		a.Op(ep.POP, ep.POP)                //            [acc]
+		a.Op(ep.DUP1)                       //            [acc acc]
+		a.PushU(0).Op(ep.CALLDATALOAD)      //            [acc acc slot]
+		a.Op(ep.SSTORE)                     //            [acc]
+		a.PushU(0).Op(ep.MSTORE)            // mem[0:32] = acc
 		a.PushU(32).PushU(0).Op(ep.LOG0, ep.STOP)
 		return a.MustBytes()
 	}()
@@ -294,13 +294,13 @@ func (rc *c33ReaderCall) expected(n uint64, hashOf func(number uint64) common.Ha
 // blocks). Returns the number of filler blocks.
 func c33Deepen(rt *rapid.T, w *worldgen.World) int {
 	f := 0
-	switch c33Pick(rt, "depth-class", []int{20, 6, 9, 4, 1}) {
+	switch c33Pick(rt, "depth-class", []int{40, 13, 22, 4, 1}) {
 	case 1:
 		f = 1 + ep.Uniform(rt, "depth-small", 4)
 	case 2:
-		f = 5 + ep.Uniform(rt, "depth-medium", 26)
+		f = 5 + ep.Uniform(rt, "depth-medium", 16)
 	case 3:
-		f = 31 + ep.Uniform(rt, "depth-large", 60)
+		f = 21 + ep.Uniform(rt, "depth-large", 60)
 	case 4:
 		f = 250 + ep.Uniform(rt, "depth-window", 12) // around the 256 block BLOCKHASH window
 	}
